@@ -156,39 +156,63 @@ func (v objectValidator) validateTypeRules(objectNode *schema.ObjectNode, value 
 			continue
 		}
 		key := k.Key
-		typ, ok := v.rootSchema.TypesList()[key]
-		if !ok {
+		if _, ok := v.rootSchema.TypesList()[key]; !ok {
 			continue
 		}
-		node := typ.Schema().RootNode()
-		if node.Type().String() != "string" {
-			panic(errors.Format(errors.ErrInvalidKeyType, v.requiredKeysString()))
-		}
-
-		flag := false
-		inside := false
-		i := 0
-
-		node.ConstraintMap().EachSafe(func(_ constraint.Type, v constraint.Constraint) {
-			inside = true
-			if i == 0 {
-				flag = true
+		// The key type may be an or shortcut or a reference to another type
+		// (`@k` = `@a | @b`): the key has to fit one of the string types it
+		// stands for.
+		for _, node := range v.keyTypeNodes(key, make(map[string]struct{}, 2), nil) {
+			if node.Type().String() != "string" {
+				panic(errors.Format(errors.ErrInvalidKeyType, v.requiredKeysString()))
 			}
-			flag = flag && checkConstraint(v, value)
-			i++
-		})
 
-		if !inside {
-			if bytes.Equal(node.Value(), value) {
-				flag = true
+			flag := false
+			inside := false
+			i := 0
+
+			node.ConstraintMap().EachSafe(func(_ constraint.Type, v constraint.Constraint) {
+				inside = true
+				if i == 0 {
+					flag = true
+				}
+				flag = flag && checkConstraint(v, value)
+				i++
+			})
+
+			if !inside {
+				if bytes.Equal(node.Value(), value) {
+					flag = true
+				}
 			}
-		}
-		if flag {
-			// all rules ok for a node
-			return key, true
+			if flag {
+				// all rules ok for a node
+				return key, true
+			}
 		}
 	}
 	return "", false
+}
+
+// keyTypeNodes collects the root nodes of the types a key type stands for,
+// following or shortcuts and references to other types (each type once).
+func (v objectValidator) keyTypeNodes(name string, seen map[string]struct{}, nodes []schema.Node) []schema.Node {
+	if _, ok := seen[name]; ok {
+		return nodes
+	}
+	seen[name] = struct{}{}
+	typ, ok := v.rootSchema.TypesList()[name]
+	if !ok {
+		return nodes
+	}
+	node := typ.Schema().RootNode()
+	if mixed, ok := node.(*schema.MixedValueNode); ok {
+		for _, n := range mixed.GetTypes() {
+			nodes = v.keyTypeNodes(n, seen, nodes)
+		}
+		return nodes
+	}
+	return append(nodes, node)
 }
 
 func checkConstraint(constr constraint.Constraint, value jbytes.Bytes) (b bool) {
